@@ -239,6 +239,18 @@ def _split_raise_test(t: ast.AST, pol: bool):
         for i, op in enumerate(t.ops):
             out += _split_raise_test(ast.copy_location(ast.Compare(left=operands[i], ops=[op], comparators=[operands[i + 1]]), t), pol)
         return out
+    # `next((x for x in X if Q(x)), None) is not None`  ==  any(Q(x) for x in X)   (the elements are never None: tuples, nodes)
+    if isinstance(t, ast.Compare) and len(t.ops) == 1 and isinstance(t.ops[0], (ast.IsNot, ast.Is)) and isinstance(t.comparators[0], ast.Constant) and \
+            t.comparators[0].value is None and isinstance(t.left, ast.Call) and isinstance(t.left.func, ast.Name) and t.left.func.id == "next" and len(t.left.args) == 2 and \
+            isinstance(t.left.args[1], ast.Constant) and t.left.args[1].value is None and isinstance(t.left.args[0], ast.GeneratorExp) and \
+            t.left.args[0].generators[-1].ifs and (isinstance(t.ops[0], ast.IsNot) == pol):
+        import copy as _cp
+        g = t.left.args[0]
+        gens = [_cp.copy(x) for x in g.generators]
+        last = gens[-1]
+        q = last.ifs[-1]
+        gens[-1] = ast.comprehension(target=last.target, iter=last.iter, ifs=list(last.ifs[:-1]), is_async=0)
+        return [(q, True, gens)]
     if isinstance(t, ast.Call) and isinstance(t.func, ast.Name) and t.func.id in ("all", "any") and len(t.args) == 1 and \
             isinstance(t.args[0], (ast.GeneratorExp, ast.ListComp)) and (t.func.id == "all") != pol:
         g = t.args[0]
@@ -467,7 +479,8 @@ def sites_in(f: FuncInfo) -> List[Dict[str, object]]:
         # speak about the same things as the site (so that `if a: .. elif b: .. else: raise` and a leading guard clause
         # `if not (a or b): raise` followed by `if a: .. else: ..` describe the same sites)
         own_atoms = B.atoms_of(ctx_f) | B.atoms_of(B.parse_pol(C(t), pol))
-        cur2 = holder if holder is not None else r
+        sib_tests: List[ast.AST] = []
+        cur2 = r      # (from the raise itself: an unconditional raise after `if ok: continue` sits in a block of its own)
         while id(cur2) in pm_:
             par2 = pm_[id(cur2)]
             for fld in ("body", "orelse", "finalbody"):
@@ -480,6 +493,10 @@ def sites_in(f: FuncInfo) -> List[Dict[str, object]]:
                             g = B.parse(C(sib.test))
                             if B.atoms_of(g) & own_atoms:
                                 ctx_f = B.mk_and([ctx_f, B.mk_not(g)])
+                        elif isinstance(sib, ast.If) and sib.body and isinstance(sib.body[-1], (ast.Continue, ast.Return, ast.Break)) and not sib.orelse:
+                            # `if ok: continue` before the site: the site is reached only with `not ok`
+                            ctx_f = B.mk_and([ctx_f, B.mk_not(B.parse(C(sib.test)))])
+                            sib_tests.append(sib.test)
             if isinstance(par2, (ast.FunctionDef, ast.AsyncFunctionDef, ast.For, ast.While)):
                 break
             cur2 = par2
@@ -490,7 +507,12 @@ def sites_in(f: FuncInfo) -> List[Dict[str, object]]:
                 it_ = it_.args[0]
             return canon_iter(C(it_))
         base_loop = _loop_text(loop) if isinstance(loop, ast.For) else (norm(C(loop.test)) if loop is not None else None)
-        for (dt, dpol, gens) in _split_raise_test(t, pol):
+        # `x = next((... if Q), None)` followed by `if x is not None: raise`: the quantifier is written out before the test is split
+        t_split = t
+        if isinstance(t, ast.Compare) and isinstance(t.left, ast.Name) and t.left.id in ldefs and isinstance(ldefs[t.left.id], ast.Call) and \
+                isinstance(ldefs[t.left.id].func, ast.Name) and ldefs[t.left.id].func.id == "next":
+            t_split = ast.copy_location(ast.Compare(left=ldefs[t.left.id], ops=t.ops, comparators=t.comparators), t)
+        for (dt, dpol, gens) in _split_raise_test(t_split, pol):
             if gens is None:
                 tf = B.parse_pol(C(dt), dpol)
                 lp_txt = base_loop
@@ -516,7 +538,7 @@ def sites_in(f: FuncInfo) -> List[Dict[str, object]]:
                 continue
             out.append({"test": B.key(full), "context": B.key(cf), "context_f": _bf_to_json(cf), "loop": lp_txt,
                         "exc": "ValueError" if isve else ("re-raise" if isve is None else "other"),
-                        "_node": r, "_test": t, "_pol": pol, "_loop": loop, "_tests": tests, "_ctx": cf})
+                        "_node": r, "_test": t, "_pol": pol, "_loop": loop, "_tests": tests, "_ctx": cf, "_sibs": sib_tests})
     return out
 
 
@@ -630,6 +652,9 @@ def dominance(prog: Program, f: FuncInfo, site: Dict[str, object]) -> Tuple[bool
     watch = {norm(a) for a in atoms_of(t)}
     for ct, cp in tests[1:]:
         watch |= {norm(a) for a in atoms_of(ct)}
+    sibs = site.get("_sibs", [])
+    for st_ in sibs:
+        watch |= {norm(a) for a in atoms_of(st_)}
     fl = SiteFlow(prog, f, watch)
     loop = site["_loop"]
     fl.site_loop = loop
@@ -647,8 +672,9 @@ def dominance(prog: Program, f: FuncInfo, site: Dict[str, object]) -> Tuple[bool
             v = eval3(t, facts)
             if v is not None and v != pol:
                 continue            # evaluated with the non-raising outcome
-            # excused if an enclosing condition was false on this path
-            excused = False
+            # excused if an enclosing condition was false on this path, or an earlier `if ok: continue / return / break` of the
+            # site's block was evaluated and left (the site's condition was evaluated with its non-raising outcome)
+            excused = any(eval3(st_, facts) is True for st_ in sibs)
             for ct, cp in tests[1:]:
                 cv = eval3(ct, facts)
                 if cv is not None and cv != cp:
